@@ -23,33 +23,54 @@ import (
 )
 
 // Process-kill part: a child process writes to real Badger and is SIGKILLed at a seeded instant;
-// the parent reopens the directory and requires, per height, all four records of one and the same
-// save, or none. The child names every operation in a journal before doing it ("B i") and after
-// it returned ("E i"); the operations are a function of (seed, round, i), so the parent can
-// rebuild every block the child may have written.
+// the parent reopens the directory and requires (a) per height all four records of one and the
+// same save, or none, and (b) that everything the child was told had been written (operations that
+// returned before the kill) reads back: blocks, state, metadata, height - the operation in flight
+// may be there or not, as a whole. The child names every operation in a journal before doing it
+// ("B i") and after it returned ("E i", or "F i <error>" when the store refused it); the operations
+// are a function of (seed, round, i), so the parent can rebuild every block the child may have
+// written.
 
 const killHeights = 16
+
+var killKeys = []string{"d", "l", "last-submitted-header-height", "rhb/3/h"}
 
 func init() { vk.Children["c14-writer"] = killChild }
 
 func killOp(seed int64, round, i int) (Op, BlockSpec) {
 	rng := rand.New(rand.NewSource(seed*1_000_003 + int64(round)*7_919 + int64(i)*104_729 + 1))
 	switch p := rng.Intn(100); {
-	case p < 82:
+	case p < 78:
 		h := uint64(1 + rng.Intn(killHeights))
-		sp := BlockSpec{Height: h, Salt: rng.Int63(), NTx: rng.Intn(4), SigMode: rng.Intn(2)}
+		sp := BlockSpec{Height: h, Salt: rng.Int63(), NTx: rng.Intn(4)}
 		if rng.Intn(12) == 0 {
 			sp.Big = []int{70 << 10, 256<<10 + 1, 300 << 10, 1<<20 + 4096}[rng.Intn(4)]
 		}
 		return Op{K: "save_diff", H: h}, sp
-	case p < 88:
-		return Op{K: "setheight", H: uint64(round*1_000_000 + i)}, BlockSpec{}
-	case p < 94:
-		return Op{K: "state", St: rng.Int63()}, BlockSpec{}
+	case p < 86:
+		if rng.Intn(4) == 0 {
+			// below the recorded height: must not take it down, also as the first call after an open
+			return Op{K: "setheight", H: uint64(1 + rng.Intn(5))}, BlockSpec{}
+		}
+		return Op{K: "setheight", H: uint64(round*1_000_000 + i + 20)}, BlockSpec{}
+	case p < 93:
+		op := Op{K: "state", St: rng.Int63()}
+		for mkState(op.St).ChainID == "" {
+			op.St = rng.Int63()
+		}
+		if rng.Intn(6) == 0 {
+			op.Big = []int{70 << 10, 300 << 10, 1<<20 + 4096}[rng.Intn(3)]
+		}
+		return op, BlockSpec{}
 	default:
-		v := make([]byte, 8)
-		rng.Read(v)
-		return Op{K: "setmeta", Key: []string{"d", "l", "last-submitted-header-height", "rhb/3/h"}[rng.Intn(4)], Val: v}, BlockSpec{}
+		op := Op{K: "setmeta", Key: killKeys[rng.Intn(len(killKeys))]}
+		if rng.Intn(6) == 0 {
+			op.St, op.Big = rng.Int63(), []int{70 << 10, 300 << 10, 1<<20 + 4096}[rng.Intn(3)]
+		} else {
+			op.Val = make([]byte, 8)
+			rng.Read(op.Val)
+		}
+		return op, BlockSpec{}
 	}
 }
 
@@ -65,9 +86,14 @@ func killChild(args []string) int {
 	if err != nil {
 		return 2
 	}
+	oneLine := func(err error) string { return strings.ReplaceAll(err.Error(), "\n", " | ") }
 	kvs, err := store.NewDefaultKVStore(dir, "db", "c14")
 	if err != nil {
-		fmt.Fprintf(jf, "X open %v\n", err)
+		if isEnvErr(err) || envTrouble(dir) != "" {
+			fmt.Fprintf(jf, "X env open %s (%s)\n", oneLine(err), envTrouble(dir))
+		} else {
+			fmt.Fprintf(jf, "X open %s\n", oneLine(err))
+		}
 		return 3
 	}
 	st := store.New(kvs)
@@ -75,18 +101,23 @@ func killChild(args []string) int {
 	_, _ = jf.WriteString("R\n")
 	// blocks are built ahead by another goroutine so that this one spends its time inside store calls
 	type prepared struct {
-		op   Op
-		pool []*Blk
-		err  error
+		op  Op
+		mt  *Mat
+		err error
 	}
 	ahead := make(chan prepared, 1024)
 	go func() {
 		for i := 0; i < 500_000; i++ {
 			op, sp := killOp(seed, round, i)
-			p := prepared{op: op}
-			if isSave(op.K) {
+			p := prepared{op: op, mt: &Mat{}}
+			switch {
+			case isSave(op.K):
 				b, err := materialise(sp)
-				p.pool, p.err = []*Blk{b}, err
+				p.mt.Pool, p.err = []*Blk{b}, err
+			case op.K == "state":
+				_ = p.mt.state(op) // large values are built here, not on the writing goroutine
+			case op.K == "setmeta":
+				_ = p.mt.metaVal(op)
 			}
 			ahead <- p
 		}
@@ -99,11 +130,16 @@ func killChild(args []string) int {
 			return 3
 		}
 		_, _ = jf.WriteString("B " + strconv.Itoa(i) + "\n") // named before it is done
-		if err := doWrite(ctx, st, p.op, p.pool); err != nil {
-			fmt.Fprintf(jf, "X %d %v\n", i, err)
-			return 3
+		if err := doWrite(ctx, st, p.op, p.mt); err != nil {
+			if isEnvErr(err) {
+				fmt.Fprintf(jf, "X env %d %s\n", i, oneLine(err))
+				return 3
+			}
+			// refused: said so, and carried on (the parent decides whether this input may be refused)
+			fmt.Fprintf(jf, "F %d %s\n", i, oneLine(err))
+		} else {
+			_, _ = jf.WriteString("E " + strconv.Itoa(i) + "\n")
 		}
-		_, _ = jf.WriteString("E " + strconv.Itoa(i) + "\n")
 		i++
 	}
 	select {} // wait for the kill
@@ -114,16 +150,18 @@ type journalState struct {
 	done     int // operations 0..done-1 returned
 	inflight int // -1: none
 	fault    string
+	refused  map[int]string // operations that returned an error (and the process went on)
 }
 
 func readJournal(path string) journalState {
-	js := journalState{inflight: -1}
+	js := journalState{inflight: -1, refused: map[int]string{}}
 	f, err := os.Open(path)
 	if err != nil {
 		return js
 	}
 	defer f.Close()
 	sc := bufio.NewScanner(f)
+	sc.Buffer(make([]byte, 0, 64<<10), 4<<20)
 	for sc.Scan() {
 		line := sc.Text()
 		switch {
@@ -138,6 +176,13 @@ func readJournal(path string) journalState {
 				js.done = n + 1
 				js.inflight = -1
 			}
+		case strings.HasPrefix(line, "F "):
+			f := strings.SplitN(line[2:], " ", 2)
+			if n, err := strconv.Atoi(f[0]); err == nil {
+				js.done = n + 1
+				js.inflight = -1
+				js.refused[n] = line
+			}
 		case strings.HasPrefix(line, "X "):
 			js.fault = line
 		}
@@ -150,7 +195,8 @@ type killDir struct {
 	dir      string
 	seed     int64
 	model    *Model
-	attempts map[uint64]map[string]*Blk // height -> header-bytes hash -> block
+	attempts map[uint64]map[string]*Blk // height -> header hash -> block
+	dead     bool                       // the model lost track of the directory (a violation or an inconclusive round): no further rounds
 }
 
 func (kd *killDir) note(op Op, b *Blk) {
@@ -169,16 +215,18 @@ func killRound(r *vk.Run, kd *killDir, round int, early bool, delay time.Duratio
 	forkMu.Unlock()
 	if err != nil {
 		r.Inconclusive("kill: cannot start child: " + err.Error())
+		kd.dead = true
 		return
 	}
 	if !early {
 		// wait until the child has opened the database (watchdog: inconclusive)
 		dl := time.Now().Add(60 * time.Second)
-		for !readJournal(journal).ready {
+		for js := readJournal(journal); !js.ready && js.fault == ""; js = readJournal(journal) {
 			if time.Now().After(dl) {
 				_ = cmd.Process.Kill()
 				_ = cmd.Wait()
 				r.Inconclusive(fmt.Sprintf("kill dir %d round %d: child never became ready", kd.id, round))
+				kd.dead = true
 				return
 			}
 			time.Sleep(2 * time.Millisecond)
@@ -189,13 +237,20 @@ func killRound(r *vk.Run, kd *killDir, round int, early bool, delay time.Duratio
 	_ = cmd.Wait()
 	r.Count("kills", 1)
 	js := readJournal(journal)
+	witness := func(extra map[string]any) map[string]any {
+		w := map[string]any{"seed": kd.seed, "dir": kd.id, "round": round, "ops_returned": js.done, "op_in_flight": js.inflight, "refused": js.refused, "fault": js.fault, "kill_delay_ms": delay.Milliseconds(), "killed_before_ready": early}
+		for k, v := range extra {
+			w[k] = v
+		}
+		return w
+	}
 	if js.fault != "" {
-		if strings.Contains(js.fault, "Cannot acquire directory lock") {
+		kd.dead = true
+		if strings.HasPrefix(js.fault, "X env ") || strings.HasPrefix(js.fault, "X materialise") {
 			r.Inconclusive(fmt.Sprintf("kill dir %d round %d: %s", kd.id, round, js.fault))
 			return
 		}
-		r.Violation("kill-reopen", fmt.Sprintf("kill dir %d round %d: the writer failed on a database that survived %d kills: %s", kd.id, round, round, js.fault),
-			map[string]any{"seed": kd.seed, "round": round, "journal": js})
+		r.Violation("kill-reopen", fmt.Sprintf("kill dir %d round %d: a database that survived %d kills (and was opened, read and closed by the checker since) does not open in the next process: %s", kd.id, round, round, js.fault), witness(nil))
 		return
 	}
 	r.Count("kill_ops_completed", int64(js.done))
@@ -207,71 +262,87 @@ func killRound(r *vk.Run, kd *killDir, round int, early bool, delay time.Duratio
 	}
 	// bring the model to "all operations that returned", remember every block ever attempted
 	var inflightOp *Op
-	var inflightBlk *Blk
+	var inflightMt *Mat
 	last := js.done
 	if js.inflight >= 0 {
 		last = js.inflight + 1
 	}
 	for i := 0; i < last; i++ {
 		op, sp := killOp(kd.seed, round, i)
-		var pool []*Blk
+		mt := &Mat{}
 		if isSave(op.K) {
 			b, err := materialise(sp)
 			if err != nil {
 				r.Inconclusive("kill: materialise: " + err.Error())
+				kd.dead = true
 				return
 			}
-			pool = []*Blk{b}
+			mt.Pool = []*Blk{b}
 			kd.note(op, b)
 		}
-		if i < js.done {
-			kd.model.apply(op, pool)
-		} else {
+		switch {
+		case i >= js.done:
 			o := op
-			inflightOp = &o
-			if pool != nil {
-				inflightBlk = pool[0]
+			inflightOp, inflightMt = &o, mt
+		case js.refused[i] != "":
+			if !kd.model.mayRefuse(op, mt) {
+				kd.dead = true
+				r.Violation("kill-write-ok", fmt.Sprintf("kill dir %d round %d: %s failed on a healthy database: %s", kd.id, round, describeOp(op), js.refused[i]), witness(nil))
+				return
 			}
+			r.Count("refused_writes_tolerated", 1)
+		default:
+			kd.model.apply(op, mt)
+			r.Count("kill_acknowledged_"+op.K, 1)
 		}
 	}
 	// reopen in the parent
-	kvs, err := store.NewDefaultKVStore(kd.dir, "db", "c14")
-	if err != nil && strings.Contains(err.Error(), "while opening fid") && strings.Contains(err.Error(), "Create a new file") {
+	kvs, env, err := openBadger(kd.dir)
+	if err != nil && !env {
 		// Badger v4.5.1 removes a flushed write-ahead file by truncate(0) + remove; a kill between the
 		// two leaves a zero-length NNNNN.mem on which the next Open fails once (it re-extends the file,
-		// the following Open succeeds; the contents had been flushed). Counted, retried once; the
-		// records are then judged as after any other kill.
-		r.Count("kill_first_open_failed_on_zero_length_wal", 1)
-		kvs, err = store.NewDefaultKVStore(kd.dir, "db", "c14")
+		// the following Open succeeds; the contents had been flushed). Whatever the reason: one more
+		// attempt is made, the first failure is counted, and what the database then holds is judged as
+		// after any other kill.
+		r.Count("kill_first_open_failed", 1)
+		kvs, env, err = openBadger(kd.dir)
 	}
 	if err != nil {
-		r.Violation("kill-reopen", fmt.Sprintf("kill dir %d round %d: database does not open after the kill: %v", kd.id, round, err),
-			map[string]any{"seed": kd.seed, "round": round, "journal": js})
+		kd.dead = true
+		if env {
+			r.Inconclusive(fmt.Sprintf("kill dir %d round %d: open after the kill: %v", kd.id, round, err))
+			return
+		}
+		r.Violation("kill-reopen", fmt.Sprintf("kill dir %d round %d: database does not open after the kill: %v", kd.id, round, err), witness(nil))
 		return
 	}
 	defer func() { _ = closeDS(kvs) }()
 	st := store.New(kvs)
 	ctx := context.Background()
+	var inflightBlk *Blk
+	if inflightOp != nil && isSave(inflightOp.K) {
+		inflightBlk = inflightMt.Pool[0]
+	}
+
+	// (a) all-or-nothing per height
 	var probs []string
-	matches := true
 	for h := uint64(1); h <= killHeights; h++ {
 		hdr, errH := st.GetHeader(ctx, h)
-		_, data, errD := st.GetBlockData(ctx, h)
+		h1, data, errD := st.GetBlockData(ctx, h)
 		sig, errS := st.GetSignature(ctx, h)
-		_, modelHas := kd.model.Hdr[h]
 		if errH != nil && errD != nil && errS != nil {
 			if len(kd.attempts[h]) > 0 {
 				r.Hit("kill-none-of-four")
-			}
-			if modelHas {
-				r.Count("kill_acknowledged_save_missing", 1)
-				matches = false
 			}
 			continue
 		}
 		r.Hit("kill-all-four-consistent")
 		if errH != nil || errD != nil || errS != nil {
 			probs = append(probs, fmt.Sprintf("height %d is torn: header err=%v, data err=%v, signature err=%v", h, errH, errD, errS))
+			continue
+		}
+		if hdr == nil || h1 == nil || data == nil || sig == nil {
+			probs = append(probs, fmt.Sprintf("height %d: a read returned no error and a nil result", h))
 			continue
 		}
 		hb, _ := hdr.MarshalBinary()
@@ -288,7 +359,11 @@ func killRound(r *vk.Run, kd *killDir, round int, early bool, delay time.Duratio
 		h2, d2, errI := st.GetBlockByHash(ctx, x.Hash)
 		s2, errI2 := st.GetSignatureByHash(ctx, x.Hash)
 		if errI != nil || errI2 != nil {
-			probs = append(probs, fmt.Sprintf("height %d: header, data and signature of save %s are there but its index record is not (by-hash lookups: %v / %v)", h, short(x.Hash), errI, errI2))
+			probs = append(probs, fmt.Sprintf("height %d: header, data and signature of save %s are there but it cannot be looked up by hash (%v / %v)", h, short(x.Hash), errI, errI2))
+			continue
+		}
+		if h2 == nil || d2 == nil || s2 == nil {
+			probs = append(probs, fmt.Sprintf("height %d: a lookup by hash returned no error and a nil result", h))
 			continue
 		}
 		hb2, _ := h2.MarshalBinary()
@@ -297,16 +372,8 @@ func killRound(r *vk.Run, kd *killDir, round int, early bool, delay time.Duratio
 			probs = append(probs, fmt.Sprintf("height %d: lookup by hash %s returns other records than lookup by height", h, short(x.Hash)))
 			continue
 		}
-		// evidence only: is it the block the journal says is the latest?
-		isLatest := modelHas && bytes.Equal(kd.model.Hdr[h], hb)
-		isInflight := inflightOp != nil && inflightBlk != nil && inflightOp.H == h && bytes.Equal(inflightBlk.HdrBin, hb)
-		switch {
-		case isInflight:
+		if inflightBlk != nil && inflightOp.H == h && bytes.Equal(inflightBlk.HdrBin, hb) {
 			r.Count("kill_inflight_save_fully_present", 1)
-		case isLatest:
-		default:
-			r.Count("kill_height_holds_older_save", 1)
-			matches = false
 		}
 	}
 	if inflightOp != nil && isSave(inflightOp.K) {
@@ -315,34 +382,9 @@ func killRound(r *vk.Run, kd *killDir, round int, early bool, delay time.Duratio
 			r.Hit("kill-during-overwrite")
 		}
 	}
-	if hh, err := st.Height(ctx); err != nil {
-		probs = append(probs, "Height() fails after the kill: "+err.Error())
-	} else if hh != kd.model.Height && !(inflightOp != nil && inflightOp.K == "setheight" && hh == inflightOp.H) {
-		matches = false
-	}
-	if matches {
-		r.Count("kill_rounds_state_equals_journal", 1)
-	}
-	// if the operation in flight did land, the model must follow for the next round
-	if inflightOp != nil {
-		landed := false
-		switch {
-		case isSave(inflightOp.K):
-			if hdr, err := st.GetHeader(ctx, inflightOp.H); err == nil {
-				hb, _ := hdr.MarshalBinary()
-				landed = bytes.Equal(hb, inflightBlk.HdrBin)
-			}
-			if landed {
-				kd.model.apply(*inflightOp, []*Blk{inflightBlk})
-			}
-		case inflightOp.K == "setheight":
-			if hh, err := st.Height(ctx); err == nil && hh == inflightOp.H {
-				kd.model.apply(*inflightOp, nil)
-			}
-		}
-	}
 	if len(probs) > 0 {
-		w := map[string]any{"seed": kd.seed, "round": round, "journal": js, "kill_delay_ms": delay.Milliseconds(), "killed_before_ready": early}
+		kd.dead = true
+		w := witness(nil)
 		if inflightOp != nil {
 			w["operation_in_flight"] = *inflightOp
 			if inflightBlk != nil {
@@ -350,12 +392,72 @@ func killRound(r *vk.Run, kd *killDir, round int, early bool, delay time.Duratio
 			}
 		}
 		r.Violation("kill-all-or-nothing", fmt.Sprintf("kill dir %d round %d (seed %d, %d ops returned): %s", kd.id, round, kd.seed, js.done, strings.Join(trim(probs, 5), " ;; ")), w)
+		return
+	}
+
+	// (b) what was acknowledged before the kill is there: the whole observable state equals the model
+	// after the operations that returned, or that model plus the operation in flight
+	heights := []uint64{424242}
+	for h := uint64(1); h <= killHeights; h++ {
+		heights = append(heights, h)
+	}
+	keys := append([]string{"never-set"}, killKeys...)
+	look := &Mat{} // whose hashes are looked up: every block now current, the one in flight, some overwritten ones
+	for h := uint64(1); h <= killHeights; h++ {
+		n := 0
+		for _, b := range kd.attempts[h] {
+			cur := bytes.Equal(kd.model.Hdr[h], b.HdrBin) || b == inflightBlk
+			if cur || n < 6 {
+				look.Pool = append(look.Pool, b)
+				if !cur {
+					n++
+				}
+			}
+		}
+	}
+	judge := func(m *Model) []string {
+		ck := &checker{ctx: ctx, st: st, m: m, hit: func(string) {}, count: func(string, int64) {}}
+		ck.all(heights, look, keys)
+		return ck.probs
+	}
+	without := judge(kd.model)
+	var with []string
+	verdict := "equals-acknowledged"
+	if len(without) > 0 {
+		verdict = "neither"
+		if inflightOp != nil {
+			m2 := kd.model.clone()
+			m2.apply(*inflightOp, inflightMt)
+			if with = judge(m2); len(with) == 0 {
+				kd.model = m2
+				verdict = "equals-acknowledged-plus-in-flight"
+			}
+		}
+	}
+	r.Count("kill_state_"+verdict, 1)
+	if js.done > 0 || round > 0 {
+		r.Hit("kill-acknowledged-writes-survive")
+	}
+	if verdict == "neither" {
+		kd.dead = true
+		d := fmt.Sprintf("kill dir %d round %d (seed %d): %d operations had returned before the kill", kd.id, round, kd.seed, js.done)
+		if inflightOp != nil {
+			d += fmt.Sprintf(", %s was in flight", describeOp(*inflightOp))
+		}
+		d += "; after reopening, the store shows neither what the returned operations wrote nor that plus the operation in flight. Against 'returned operations': " + strings.Join(trim(without, 4), " ;; ")
+		if inflightOp != nil {
+			d += " || against 'plus the operation in flight': " + strings.Join(trim(with, 4), " ;; ")
+		}
+		r.Violation("kill-acknowledged-durable", d, witness(nil))
 	}
 }
 
-// runKills is the process-kill phase: quick 12 kills, thorough 200.
+// runKills is the process-kill phase: quick 24 kills, thorough 200.
 func runKills(r *vk.Run, base string) {
-	dirs, rounds := r.N(3, 40), r.N(4, 5)
+	dirs, rounds := r.N(6, 40), r.N(4, 5)
+	if v, err := strconv.Atoi(os.Getenv("VERIF_C14_KILL_DIRS")); err == nil && v > 0 {
+		dirs = v // development knob: more kills without the rest of the thorough tier
+	}
 	rng := r.Rand("kills")
 	type plan struct {
 		seed   int64
@@ -375,10 +477,9 @@ func runKills(r *vk.Run, base string) {
 		}
 		plans[i] = p
 	}
-	if !r.Quick() {
-		r.Require("kill-all-four-consistent", int64(dirs*rounds))
-		r.Require("kill-during-save", int64(dirs*rounds/10))
-	}
+	r.Require("kill-all-four-consistent", int64(dirs*rounds))
+	r.Require("kill-acknowledged-writes-survive", int64(dirs*rounds/2))
+	r.Require("kill-during-save", int64(r.N(1, dirs*rounds/10)))
 	var wg sync.WaitGroup
 	sem := make(chan struct{}, 8)
 	for i, p := range plans {
@@ -390,11 +491,12 @@ func runKills(r *vk.Run, base string) {
 			kd := &killDir{id: i, dir: filepath.Join(base, fmt.Sprintf("kill%d", i)), seed: p.seed, model: newModel(), attempts: map[uint64]map[string]*Blk{}}
 			_ = os.MkdirAll(kd.dir, 0o755)
 			defer os.RemoveAll(kd.dir)
-			for k := 0; k < rounds; k++ {
+			for k := 0; k < rounds && !kd.dead; k++ {
 				if r.Violations() > 0 {
 					return
 				}
-				killRound(r, kd, k, p.early[k], p.delays[k])
+				k := k
+				r.Guard(map[string]any{"kill_dir": i, "seed": p.seed, "round": k}, func() { killRound(r, kd, k, p.early[k], p.delays[k]) })
 			}
 		}(i, p)
 	}
